@@ -518,7 +518,64 @@ def _ports(ctx):
            construct='socket partition')
 
 
+_REGISTRARS = {
+    # who may register host-side state, and why its removal is accounted for
+    RUN: 'container start; removal side checked by C16.1',
+    'treadmill.vring': 'vring rules: created and unlinked by the vring '
+                       'itself on its own chains',
+    'treadmill.sproc.firewall': 'passthrough set follows the rule files',
+    'treadmill.services.network_service': 'container set entry added and '
+                                          'removed with the device',
+    'treadmill.iptables': 'static initialisation of the sets',
+    'treadmill.sproc.nodeinfo': 'own service endpoint, re-created under '
+                                'unlink_all',
+    'treadmill.sproc.tickets': 'own service endpoint, re-created under '
+                               'unlink_all',
+    'treadmill.sproc.keytabs': 'own service endpoint, re-created under '
+                               'unlink_all',
+}
+
+
+def _registrars(ctx):
+    """Thorough tier, whole package: rule files, endpoint specs and IP-set
+    entries are registered only by the listed modules; a new registrar has
+    no removal the finish side knows about."""
+    index = ctx.index
+    index.load_all()
+    inside = 0
+    for mod in index.modules.values():
+        if '.tests' in mod.name:
+            continue
+        if not any(api in mod.source for api in _CREATE):
+            continue
+        for func in mod.live_functions():
+            for sub in K.walk_no_nested(func.node):
+                if not isinstance(sub, ast.Call):
+                    continue
+                name = sub.func.attr if isinstance(
+                    sub.func, ast.Attribute) else (
+                        sub.func.id if isinstance(sub.func, ast.Name)
+                        else None)
+                if name not in _CREATE:
+                    continue
+                if func.name == name:
+                    continue            # the primitive itself
+                ok = mod.name in _REGISTRARS
+                inside += ok
+                ctx.ob('C16.1', func, sub, ok,
+                       '%s is called by a known registrar (%s)' % (
+                           name, _REGISTRARS.get(mod.name)) if ok else
+                       '%s registers host-side state from %s, which is not '
+                       'a known registrar: nothing removes it when the '
+                       'container finishes' % (name, mod.name),
+                       construct='registrar %s.%s' % (mod.name, name))
+    ctx.require(inside >= 10, 'registration calls inside the known '
+                              'registrars (found %d)' % inside)
+
+
 def check(ctx):
+    if ctx.tier == 'thorough':
+        _registrars(ctx)
     start, stop, created, removed, run, fin = _coverage(ctx)
     _entry_conditions(ctx, run, fin)
     _owner(ctx, start, stop, created, removed)
@@ -532,6 +589,7 @@ _RT = 'lib/python/treadmill/runtime/__init__.py'
 _NS = 'lib/python/treadmill/services/network_service.py'
 
 MUTANTS = [
+    ('registration-from-an-unknown-module', [('lib/python/treadmill/cleanup.py', '        cleanup_link = os.path.join(self.tm_env.cleanup_dir, instance)\n        try:\n            container_dir = os.readlink(cleanup_link)\n', "        cleanup_link = os.path.join(self.tm_env.cleanup_dir, instance)\n        self.tm_env.endpoints.create_spec(instance, 'tcp', 'x', 1, 1, 1, cleanup_link)\n        try:\n            container_dir = os.readlink(cleanup_link)\n")], 'C16.1', 'thorough'),
     ('udp-ephemeral-registered-as-tcp', [(_RU, """                            '{ip},udp:{port}'.format(ip=app.network.vip,
                                                      port=port))
 """, """                            '{ip},tcp:{port}'.format(ip=app.network.vip,
